@@ -164,8 +164,17 @@ func driverInput(pc *ProgCase) []string {
 	return in
 }
 
-// runCodec generates (fresh parse per target), builds and drives every (case, lang).
-func runCodec(ctx *core.Ctx, cases []*ProgCase, langs []string) {
+// SeqSuffix marks a cell whose files were generated after all other targets on one shared model
+// (the CLI's order): such a cell exists only where those files differ from the fresh-parse ones.
+const SeqSuffix = "@after-other-targets"
+
+func baseLang(l string) string { return strings.TrimSuffix(l, SeqSuffix) }
+
+// runCodec generates (fresh parse per target), builds and drives every (case, lang). It returns the
+// language list extended by pseudo-languages "<lang>@after-other-targets" for which at least one
+// program's files depend on the generators run before (generator interference, C14's subject, is
+// thereby also exercised by the codec checks instead of being invisible to them).
+func runCodec(ctx *core.Ctx, cases []*ProgCase, langs []string) []string {
 	env := targetEnv(ctx)
 	var mu sync.Mutex
 	type job struct {
@@ -203,6 +212,38 @@ func runCodec(ctx *core.Ctx, cases []*ProgCase, langs []string) {
 		byLang[j.lang] = append(byLang[j.lang], cc.T)
 		mu.Unlock()
 	})
+	// the CLI's way: one model, generators in fixed order
+	extra := map[string]bool{}
+	core.Parallel(len(cases), func(i int) {
+		pc := cases[i]
+		if !pc.Accepted {
+			return
+		}
+		m, _, err := parseText(ctx, pc.Text)
+		if err != nil {
+			return
+		}
+		for _, l := range api.Langs {
+			files, err := api.Generate(m, l)
+			mu.Lock()
+			fresh := pc.Cells[l]
+			mu.Unlock()
+			if fresh == nil || fresh.T == nil || err != nil {
+				continue
+			}
+			if treeString(files) == treeString(fresh.T.Files) {
+				continue
+			}
+			key := l + SeqSuffix
+			cc := &CodecCell{PC: pc, Lang: key}
+			cc.T = &targets.Cell{Name: pc.Prog.Name + SeqSuffix, Lang: l, Files: files, Meta: optMeta(pc.Prog), Input: driverInput(pc), R: pc.R}
+			mu.Lock()
+			pc.Cells[key] = cc
+			byLang[l] = append(byLang[l], cc.T)
+			extra[key] = true
+			mu.Unlock()
+		}
+	})
 	var wg sync.WaitGroup
 	for _, l := range langs {
 		t, ok := targets.All[l]
@@ -218,6 +259,13 @@ func runCodec(ctx *core.Ctx, cases []*ProgCase, langs []string) {
 		}(t, cells)
 	}
 	wg.Wait()
+	out := append([]string(nil), langs...)
+	for _, l := range langs {
+		if extra[l+SeqSuffix] {
+			out = append(out, l+SeqSuffix)
+		}
+	}
+	return out
 }
 
 // optsInForce lists the wire-relevant options a program sets to a non-default value.
